@@ -122,9 +122,12 @@ def extra_obligations(p0, p, typer, case):
                declared type of that class (expected type);
     (reassign) a non-final variable whose type was removed: every later plain assignment to it assigns a value of
                (a subtype of) the type inferred from the initialiser;
-    (recursive) a function whose return type was removed does not call itself in its body."""
+    (recursive) a function whose return type was removed does not call itself in its body;
+    (operand)  a call in operand position of a binary operator whose type arguments became inferable: every type parameter
+               of the callee occurs in one of its parameter types."""
     obs = []
     classes = p.context.get_classes(ast.GLOBAL_NAMESPACE, glob=True)
+    funcs = p.context.get_funcs(ast.GLOBAL_NAMESPACE, glob=True)
     before = [n for d in P.top_decls(p0) for n, _ in _walk(d)]
     after = [(n, par) for d in P.top_decls(p) for n, par in _walk(d)]
     if len(before) != len(after):
@@ -149,6 +152,22 @@ def extra_obligations(p0, p, typer, case):
             obs.append(Ob('diamond|type-arguments-inferable', expected or not missing,
                           dict(case, instantiation=str(n.class_type), not_inferable=missing,
                                declared_type_kept=expected)))
+        if isinstance(n, ast.FunctionCall) and isinstance(b, ast.FunctionCall) and n.type_args and n.can_infer_type_args \
+                and not b.can_infer_type_args and isinstance(par, ast.BinaryOp):
+            # (operand) an operator gives its operands no expected type: the erased type arguments of a call in operand
+            # position must be determined by the call's own arguments
+            callee = funcs.get(n.func)
+            if callee is not None and callee.type_parameters:
+                in_params = set()
+                for prm in callee.params:
+                    pt = prm.get_type()
+                    if pt.is_type_var():
+                        in_params.add(pt.name)
+                    elif hasattr(pt, 'get_type_variables'):
+                        in_params.update(v.name for v in pt.get_type_variables(p.bt_factory))
+                missing = [tpar.name for tpar in callee.type_parameters if tpar.name not in in_params]
+                obs.append(Ob('operand|type-arguments-of-call-inferable-from-its-arguments', not missing,
+                              dict(case, call=n.func, operator=str(getattr(par, 'operator', '')), not_inferable=missing)))
     for ns, d in declarations_with_namespace(p):
         old = d0.get((ns, d.name, type(d).__name__))
         if old is None:
